@@ -146,7 +146,13 @@ def apply_ref(op, ref, key, value, pairs, kv, vv):
     return None
 
 
-def make_harness(op, s, m, kvn, vvn):
+def plain_factory(ex, keys, vals, kv, vv, notifier):
+    td = tdo.TraitDict(list(zip(keys, vals)), key_validator=kv, value_validator=vv)
+    td.notifiers = [notifier]
+    return td, None
+
+
+def make_harness(op, s, m, kvn, vvn, factory=plain_factory):
     kv, vv = VALIDATORS[kvn], VALIDATORS[vvn]
 
     def harness(ex):
@@ -169,8 +175,7 @@ def make_harness(op, s, m, kvn, vvn):
             ok = len(set(keys)) == s and (kvn == "ident" or all(k >= 0 for k in keys)) \
                 and (vvn == "ident" or all(v >= 0 for v in vals))
             ex.assume(ok)
-        td = tdo.TraitDict(list(zip(keys, vals)), key_validator=kv, value_validator=vv)
-        td.notifiers = [notifier]
+        td, extra = factory(ex, keys, vals, kv, vv, notifier)
         ref = dict(zip(keys, vals))
         before = dict(td)
         ex.check(dict_eq(before, ref), "constructor stores the given state")
@@ -207,6 +212,8 @@ def make_harness(op, s, m, kvn, vvn):
         if exc_t is not None:
             ex.check(dict_eq(after, before), "failing operation changes nothing")
             ex.check(events == [], "failing operation is silent")
+        if extra is not None:
+            extra(ex, exc_t, td)
         changed_contents = not dict_eq(after, before)
         if changed_contents:
             ex.check(len(events) == 1, "exactly one event for a content change")
